@@ -811,15 +811,12 @@ def break_layout(case: dict, how: str, rnd: random.Random, paths: list[str], imp
         case["lookup"] = []
         case["expect"] = "missing"
     elif how == "dir_candidate":
-        # a DIRECTORY with the import's name in a lookup directory that is searched before the one holding the file
+        # a DIRECTORY with the import's name in a lookup directory (L0, holding nothing else) that is searched before all others
         j = next(j for j in range(1, nf + 1) if placement[j] == "lookup")
-        good = copy.deepcopy(files[paths[j]])
-        for d in LOOKUP_DIRS:
-            files.pop(posixpath.join(d, lookup_name[j]), None)
-        first, second = "L1", "L2"
-        case["lookup"] = [ROOT + "/" + first, ROOT + "/" + second] + [l for l in case["lookup"] if not l.rstrip("/").endswith(("L1", "L2"))]
-        files[posixpath.join(second, lookup_name[j])] = good
-        case["dirs"] = list(case["dirs"]) + [posixpath.join(first, lookup_name[j])]
+        if case["lookup"] and not case["lookup"][0].startswith(ROOT):
+            case["lookup"] = [ROOT + "/" + d for d in lookup_dirs]      # keep every lookup path absolute here
+        case["lookup"] = [ROOT + "/L0"] + list(case["lookup"])
+        case["dirs"] = list(case["dirs"]) + [posixpath.join("L0", lookup_name[j])]
         case["expect"] = "dir_candidate"
     else:
         raise ValueError(how)
